@@ -2213,6 +2213,9 @@ fn run_script<P: PT>(lines: &[&str], w: &mut impl Write) {
         }
         out.push('\n');
         w.write_all(out.as_bytes()).unwrap();
+        // flushed per line, so that a hang or abort inside a library call can be attributed to
+        // the operation it happened in
+        w.flush().unwrap();
     }
 }
 
